@@ -190,6 +190,12 @@ def memcheck_cases(tier, seed, ab):
         for _ in range(10 if tier == 'quick' else 25):
             nc, no = rng.randint(0, rank + 1), rng.randint(0, rank + 1)
             q = rng.random()
+            if rng.random() < 0.25:
+                # typed transfers of ONE value (a heap cell of one element) and of a vector the library sizes
+                how = rng.choice(['rd3', 'rd2', 'wr2', 'vec'])
+                arg = {'rd3': vec(nc, [1, 1, 2]), 'vec': vec(nc, [1, 1, 2, 3]), 'rd2': '~', 'wr2': f64(4.0)}[how]
+                L.append('%s_one %s Double %s %s' % (rng.choice(['da', 'dv']), how, arg, vec(no, [0, 0, 1])))
+                continue
             if q < 0.35: L.append('da_rd Double %s %s 1' % (vec(nc, [1, 1, 2]), vec(no, [0, 0, 1])))
             elif q < 0.6: L.append('da_wr Double %s %s %s' % (vec(nc, [1, 1, 2]), vec(no, [0, 0, 1]), lst([f64(1.0)])))
             elif q < 0.7: L.append('da_ext %s' % vec(rng.randint(0, rank + 1), [1, 2, 5]))
